@@ -13,7 +13,7 @@ CONSTANTS
  CacheDroppedFirst = TRUE
  Drivers <- BuildOnly
  BuildCleansOnEmpty = TRUE
- BuildProbes = TRUE
+ BuildProbes = FALSE
  MaxEnv = 1
  MaxRuns = 3
  MaxFaults = 1
